@@ -5,6 +5,7 @@ import (
 	"fmt"
 	"math/rand/v2"
 	"net"
+	"os"
 	"sort"
 	"strings"
 	"sync/atomic"
@@ -393,6 +394,7 @@ func installHook(f cli.Family) {
 }
 
 func judge(r *mon.Rec, t *testing.T, sc scriptT, tag string) {
+	r.Current(sc)
 	r.Eval(1)
 	f := fam(sc.Fam)
 	// all calls of one script use the same try count (client-level setting)
@@ -546,6 +548,9 @@ func judge(r *mon.Rec, t *testing.T, sc scriptT, tag string) {
 func TestCheck(t *testing.T) {
 	r := mon.New("C10")
 	defer r.Flush()
+	if os.Getenv("VERIF_REPLAY") == "" {
+		r.Watchdog(60 * time.Second)
+	}
 	var sc scriptT
 	if mon.ReplayCase(&sc) {
 		judge(r, t, sc, map[bool]string{true: "gap", false: "model"}[sc.Gap])
